@@ -12,9 +12,10 @@
    query, and entities that were disjoint stay disjoint. *)
 EXTENDS Integers, Sequences, FiniteSets, TLC, RTStrings
 
-CONSTANTS MaxTokens, Fixed
+CONSTANTS MaxTokens, Fixed,
+          BoundedAfter   \* TRUE: suffix modifiers are searched only up to the start of the next entity (after the second fix)
 
-Words == <<"EEE", "b", "aa", "uu", "s", "xx", "=", " ", "o">>
+Words == <<"EEE", "b", "aa", "uu", "s", "xx", "=", " ", "o", "aaE">>     \* "aaE": an entity whose own text begins with the after word
 RECURSIVE Concat(_, _)
 Concat(ws, i) == IF i > Len(ws) THEN "" ELSE Words[ws[i]] \o Concat(ws, i + 1)
 RECURSIVE StartOf(_, _)
@@ -43,10 +44,11 @@ VARIABLES src, ents, k, lastEnd, pc
 vars == <<src, ents, k, lastEnd, pc>>
 
 TokSeqs == UNION { [1..n -> 1..Len(Words)] : n \in 1..MaxTokens }
-EntsOf(ws) == [i \in 1..Cardinality({j \in 1..Len(ws) : ws[j] = 1}) |->
-                 LET j == CHOOSE j \in 1..Len(ws) : ws[j] = 1 /\ Cardinality({q \in 1..j : ws[q] = 1}) = i
-                 IN [start |-> StartOf(ws, j), length |-> 3, text |-> "EEE"]]
-Init == \E ws \in { w \in TokSeqs : \E j \in 1..Len(w) : w[j] = 1 } :
+IsEnt(w) == w = 1 \/ w = 10
+EntsOf(ws) == [i \in 1..Cardinality({j \in 1..Len(ws) : IsEnt(ws[j])}) |->
+                 LET j == CHOOSE j \in 1..Len(ws) : IsEnt(ws[j]) /\ Cardinality({q \in 1..j : IsEnt(ws[q])}) = i
+                 IN [start |-> StartOf(ws, j), length |-> 3, text |-> Words[ws[j]]]]
+Init == \E ws \in { w \in TokSeqs : \E j \in 1..Len(w) : IsEnt(w[j]) } :
           /\ src = Concat(ws, 1) /\ ents = EntsOf(ws) /\ k = 1 /\ lastEnd = 0 /\ pc = "loop"
 
 (* one iteration of the for loop *)
@@ -68,7 +70,8 @@ Step ==
   /\ pc = "loop" /\ k <= Len(ents)
   /\ LET e0 == ents[k]
          before == IF Fixed THEN PySlice(src, lastEnd, e0.start) ELSE Strip(PySlice(src, lastEnd, e0.start))
-         after == IF Fixed THEN PySlice(src, e0.start + e0.length, Len(src)) ELSE Strip(PySlice(src, e0.start + e0.length, Len(src)))
+         nextStart == IF BoundedAfter /\ k < Len(ents) THEN Max(ents[k + 1].start, e0.start + e0.length) ELSE Len(src)
+         after == IF Fixed THEN PySlice(src, e0.start + e0.length, nextStart) ELSE Strip(PySlice(src, e0.start + e0.length, Len(src)))
          e1 == Suffix(e0, "b", after, 1)            \* before_regex, old slice [start : length + 1]
          e2 == Suffix(e1, "aa", after, 1)           \* after_regex
          e3 == Prefix(e2, "uu", before, FALSE)      \* until_regex:        mod_len = len(before) - index
@@ -90,4 +93,5 @@ Disjoint == pc = "done" => \A i, j \in 1..Len(ents) : i < j => ents[i].start + e
 (* a modifier is attached only when nothing but blanks separates it from the entity *)
 OnlyAdjacent == pc = "done" => \A i \in 1..Len(ents) :
                   LET t == ents[i].text IN \A p \in 1..Len(t) : Ch(t, p) # "o"
+(* the entity words are not modifiers of their neighbours *)
 =============================================================================
